@@ -82,7 +82,7 @@ def check(spec):
 @st.composite
 def resume_spec(draw, small=False):
     s = draw(im.full_spec(max_configs=3, allow_zero_budget=False, small=small))
-    s["main_kind"] = draw(st.sampled_from(["seq", "epoch", "epoch", "kd_dist"]))
+    s["main_kind"] = draw(st.sampled_from(["seq", "epoch", "epoch", "kd_dist", "kd_dist2"]))
     # budgets long enough to have boundaries before the end
     if s["budget_kind"] == "epochs":
         s["budget"] = draw(st.integers(2, 5))
